@@ -38,6 +38,9 @@ type Program struct {
 // program. overlay maps absolute file names to replacement contents (used by the
 // seeded-variant self test only). Any load or type error is returned: a tree
 // that does not type-check is never "passed".
+// RefFile is the reference inventory used for rename resolution ("" disables it).
+var RefFile = ""
+
 func Load(repo string, overlay map[string][]byte) (*Program, error) {
 	env := []string{}
 	for _, e := range os.Environ() {
@@ -91,6 +94,15 @@ func Load(repo string, overlay map[string][]byte) (*Program, error) {
 		}
 	}
 	sort.Slice(p.Pkgs, func(i, j int) bool { return p.Pkgs[i].PkgPath < p.Pkgs[j].PkgPath })
+	if RefFile != "" {
+		var named []*ssa.Function
+		for fn := range ssautil.AllFunctions(prog) {
+			if isModuleFunc(fn) && !(fn.Synthetic != "" && fn.Syntax() == nil) && fn.Origin() == nil {
+				named = append(named, fn)
+			}
+		}
+		resolveRenames(named, RefFile)
+	}
 	for fn := range ssautil.AllFunctions(prog) {
 		if !isModuleFunc(fn) {
 			continue
@@ -224,6 +236,9 @@ func FuncKey(fn *ssa.Function) string {
 	if fn == nil {
 		return "<nil>"
 	}
+	if k, ok := funcAlias[fn]; ok {
+		return k
+	}
 	if fn.Parent() != nil {
 		// closure: name is outer$N
 		name := fn.Name()
@@ -235,6 +250,9 @@ func FuncKey(fn *ssa.Function) string {
 	o := fn
 	if fn.Origin() != nil {
 		o = fn.Origin()
+		if k, ok := funcAlias[o]; ok {
+			return k
+		}
 	}
 	if o.Signature != nil && o.Signature.Recv() != nil {
 		return recvTypeKey(o.Signature.Recv().Type()) + "." + o.Name()
